@@ -248,9 +248,25 @@ impl QueryEngine {
         Ok(())
     }
 
+    /// Plan SQL text received through a query interface.
+    ///
+    /// The query interfaces are read-only: DDL (CREATE/DROP ...), DML (INSERT,
+    /// COPY ... TO) and session statements (SET, PREPARE, ...) are rejected here,
+    /// before anything runs. `SessionContext::sql` would execute DDL and session
+    /// statements eagerly while planning, and `collect` would run INSERT/COPY
+    /// against the writable object store registered with this session. The whole
+    /// plan tree is verified, including statements nested under EXPLAIN [ANALYZE].
+    async fn plan_user_sql(&self, sql: &str) -> Result<DataFrame> {
+        let read_only = SQLOptions::new()
+            .with_allow_ddl(false)
+            .with_allow_dml(false)
+            .with_allow_statements(false);
+        Ok(self.ctx.sql_with_options(sql, read_only).await?)
+    }
+
     /// Execute a SQL query
     pub async fn execute(&self, sql: &str) -> Result<Vec<RecordBatch>> {
-        let df = self.ctx.sql(sql).await?;
+        let df = self.plan_user_sql(sql).await?;
         let batches = df.collect().await?;
         Ok(batches)
     }
@@ -263,7 +279,7 @@ impl QueryEngine {
         index_controller: Arc<crate::adaptive_index::AdaptiveIndexController>,
     ) -> Result<Vec<RecordBatch>> {
         // 1. Analyze query for filter predicates
-        let df = self.ctx.sql(sql).await?;
+        let df = self.plan_user_sql(sql).await?;
         let plan = df.logical_plan();
         let filter_columns = Self::extract_filter_columns(plan);
 
@@ -359,7 +375,7 @@ impl QueryEngine {
         &self,
         sql: &str,
     ) -> Result<datafusion::physical_plan::SendableRecordBatchStream> {
-        let df = self.ctx.sql(sql).await?;
+        let df = self.plan_user_sql(sql).await?;
         let stream = df.execute_stream().await?;
         Ok(stream)
     }
@@ -369,7 +385,7 @@ impl QueryEngine {
     /// The returned range contains the timestamp of every row the query's
     /// filters can accept, so chunks outside it cannot contribute to the answer.
     pub async fn extract_time_range(&self, sql: &str) -> Result<TimeRange> {
-        let df = self.ctx.sql(sql).await?;
+        let df = self.plan_user_sql(sql).await?;
         let plan = df.logical_plan();
 
         // Extract time predicates from the plan
@@ -506,7 +522,7 @@ impl QueryEngine {
         &self,
         sql: &str,
     ) -> Result<Vec<crate::metadata::predicates::ColumnPredicate>> {
-        let df = self.ctx.sql(sql).await?;
+        let df = self.plan_user_sql(sql).await?;
         let plan = df.logical_plan();
 
         let mut predicates = Vec::new();
@@ -667,7 +683,7 @@ impl QueryEngine {
 
     /// Analyze a query without executing
     pub async fn analyze(&self, sql: &str) -> Result<datafusion::logical_expr::LogicalPlan> {
-        let df = self.ctx.sql(sql).await?;
+        let df = self.plan_user_sql(sql).await?;
         Ok(df.logical_plan().clone())
     }
 
@@ -678,7 +694,7 @@ impl QueryEngine {
 
         // In a full implementation, we'd cache the logical plan
         // For now, just validate the SQL
-        let _ = self.ctx.sql(sql).await?;
+        let _ = self.plan_user_sql(sql).await?;
 
         Ok(handle)
     }
@@ -927,5 +943,46 @@ mod tests {
         let url = engine.path_to_object_store_url("tenant/data/chunk.parquet");
         assert!(url.starts_with("gs://"));
         assert!(url.ends_with("/tenant/data/chunk.parquet"));
+    }
+
+    #[tokio::test]
+    async fn test_user_sql_is_read_only() {
+        let object_store = Arc::new(InMemory::new());
+        let dir = tempdir().unwrap();
+        let config = super::super::CacheConfig {
+            l1_size: 10 * 1024 * 1024,
+            l2_size: 50 * 1024 * 1024,
+            l2_dir: Some(dir.path().to_str().unwrap().to_string()),
+        };
+        let cache = Arc::new(TieredCache::new(config).await.unwrap());
+        let engine = QueryEngine::new(object_store.clone(), cache, &StorageConfig::default())
+            .await
+            .unwrap();
+
+        for sql in [
+            "COPY (SELECT 1 AS x) TO 's3://cardinalsin-data/default/evil.parquet' STORED AS PARQUET",
+            "EXPLAIN ANALYZE COPY (SELECT 1 AS x) TO 's3://cardinalsin-data/default/evil.parquet' STORED AS PARQUET",
+            "DROP TABLE metrics",
+            "CREATE VIEW v AS SELECT 1",
+            "INSERT INTO metrics SELECT * FROM metrics",
+            "SET datafusion.execution.batch_size = 1",
+        ] {
+            assert!(engine.execute(sql).await.is_err(), "{sql} must be rejected");
+            assert!(engine.analyze(sql).await.is_err(), "{sql} must be rejected");
+            assert!(
+                engine.extract_time_range(sql).await.is_err(),
+                "{sql} must be rejected"
+            );
+        }
+
+        // Nothing was written and the table is still there.
+        use futures::TryStreamExt;
+        let objects: Vec<_> = object_store.list(None).try_collect().await.unwrap();
+        assert!(objects.is_empty());
+        engine.execute("SELECT COUNT(*) FROM metrics").await.unwrap();
+        engine
+            .execute("EXPLAIN ANALYZE SELECT COUNT(*) FROM metrics")
+            .await
+            .unwrap();
     }
 }
